@@ -10,8 +10,8 @@ def B(name, expect, edits, mention=None, props=None):
                      'props': props or expect})
 
 
-def N(name, edits=None, reformat=False):
-    VARIANTS.append({'name': name, 'kind': 'benign', 'edits': edits or [], 'reformat': reformat})
+def N(name, edits=None, reformat=False, transform=None):
+    VARIANTS.append({'name': name, 'kind': 'benign', 'edits': edits or [], 'reformat': reformat, 'transform': transform})
 
 
 # ---------------------------------------------------------------- C01 / C05 / spec: layout
@@ -337,3 +337,8 @@ N('benign.chain-count-checked-before-loop', [(P + 'ssh/key.py', _CHAIN_OLD, "   
 B('C02.chain-count-unchecked', ['C02'], [(P + 'ssh/key.py', "        if not certificates:\n            raise InvalidValue(parser['certificate_count'], cls, 'certificate_count')\n", "")], mention=['IndexError'])
 B('C19.scan-from-start-of-input', ['C19'], [(P + 'common/parse.py', "        for separator_end in range(item_offset, len(self._parsable) + 1):\n            for separator in byte_separators:\n                if self._parsable[item_offset:separator_end].endswith(separator):",
                                               "        for separator_end in range(0, len(self._parsable) + 1):\n            for separator in byte_separators:\n                if separator_end >= item_offset and self._parsable[item_offset:separator_end].endswith(separator):")], mention=['C19.R3'])
+
+# ---------------------------------------------------------------- mechanical whole-package transformations (sa/selftest_transforms.py)
+for _t in ('swap-if-branches', 'return-via-local', 'nested-if-for-and', 'expand-augassign', 'flip-order-comparisons', 'split-pair-unpacking',
+           'ifexp-to-statement', 'early-exit', 'while-true'):
+    N('benign.mech.' + _t, transform=_t)
